@@ -4,6 +4,7 @@ import (
 	"fmt"
 
 	"verif/core"
+	"verif/ref"
 )
 
 // C17 — compression is effective on redundancy and never expands noticeably.
@@ -19,6 +20,10 @@ type C17Case struct {
 	Matcher int
 	Props   [3]int
 	Frag    int `json:",omitempty"` // size of the Write calls the input is handed over in (0 = one Write)
+	// Flush (LZMA2 writer, run and X‖X only): a Flush after the first 8 bytes of a run / between X and
+	// its copy. The dictionary survives a Flush; should a writer reset it there (legal), the redundancy
+	// is no longer inside the window and the case is not judged.
+	Flush bool `json:",omitempty"`
 }
 
 func init() {
@@ -43,6 +48,7 @@ func c17Case(r *core.Run, p C17Case) {
 		data = randBytes(p.Seed+100, p.N)
 	}
 	var outLen int
+	windowReset := false
 	blocks := 1
 	desc := fmt.Sprintf("%+v", p)
 	pan := core.Guard(func() {
@@ -59,11 +65,31 @@ func c17Case(r *core.Run, p C17Case) {
 			for n := 0; p.Frag > 0 && n+p.Frag < len(data); n += p.Frag {
 				steps = append(steps, L2Step{"w", p.Frag})
 			}
-			outLen = len(mustLibLZMA2(cfg, data, steps))
+			if p.Flush {
+				k := 8
+				if p.Family == "xx" {
+					k = p.N
+				}
+				steps = []L2Step{{"w", k}, {"f", 0}}
+			}
+			out := mustLibLZMA2(cfg, data, steps)
+			outLen = len(out)
+			if p.Flush {
+				x := ref.DecodeLZMA2(out, 1<<30, false)
+				for i, c := range x.Chunks {
+					if i > 0 && (c.Kind == ref.CRawReset || c.Kind == ref.CLZMAFull) {
+						windowReset = true
+					}
+				}
+			}
 		}
 	})
 	if pan != nil {
 		r.Violate(cs, "writer fails matcher="+matcherName(p.Matcher), desc, pan.Value, "stream (see C01/C08)")
+		return
+	}
+	if windowReset {
+		r.Count("not_judged_writer_reset_the_dictionary_at_flush", 1)
 		return
 	}
 	allow := 128 + 64*blocks
@@ -158,6 +184,32 @@ func runC17(r *core.Run) {
 					}
 				}
 			}
+		}
+	}
+	// X‖X across the 2 MiB uncompressed chunk limit (the chunk ends inside the second copy)
+	for s := 0; s < 2; s++ {
+		for m := 0; m < 2; m++ {
+			api := "xz"
+			if s == 1 {
+				api = "lzma2"
+			}
+			cases = append(cases, C17Case{Family: "xx", API: api, Seed: 10 + s, N: 1300000, DictCap: 1 << 21, Matcher: m, Props: def})
+		}
+	}
+	// a Flush between X and its copy / after the first bytes of a run (LZMA2 writer): the encoder is
+	// drained once before the redundancy arrives
+	for m := 0; m < 2; m++ {
+		for s := 0; s < 2; s++ {
+			for _, n := range []int{2000, 16384, 60000} {
+				cases = append(cases, C17Case{Family: "xx", API: "lzma2", Seed: 20 + s, N: n, DictCap: 1 << 16, Matcher: m, Props: def, Flush: true})
+			}
+		}
+		for _, b := range []int{0, 'a', 255} {
+			n, dc := 300000, 1<<20
+			if m == 1 {
+				n, dc = 49152, 4096
+			}
+			cases = append(cases, C17Case{Family: "run", API: "lzma2", Byte: b, N: n, DictCap: dc, Matcher: m, Props: def, Flush: true})
 		}
 	}
 	// the same bounds when the input is handed over in many small Write calls (a Write is not a Flush)
